@@ -167,6 +167,48 @@ def h_sharing(ctx):
             t_last = t
 
 
+def h_repeat(ctx):
+    """The same publication delivered several times (two consumers, repeated pulls) over links that need a grid
+    transform and a unit conversion: every delivery must equal the converted published data, and the publication
+    kept by the output must stay what was published.  Float payloads (in-place arithmetic only exists for them)."""
+    hlib.reset_finam_state()
+    src_kind = ["esri", "uniform_rev", "uniform"][ctx.choice("src_grid", 3)]
+    g_src = {"esri": lambda: fm.EsriGrid(ncols=3, nrows=2),
+             "uniform_rev": lambda: fm.UniformGrid((4, 3), axes_reversed=True),
+             "uniform": lambda: fm.UniformGrid((4, 3))}[src_kind]()
+    g_dst = fm.UniformGrid((4, 3), axes_increase=[True, True])
+    pu, cu = [("m", "mm"), ("m", "m"), ("degC", "K")][ctx.choice("units", 3)]
+    out = fm.Output(name="out", info=fm.Info(time=hlib.T0, grid=g_src, units=pu))
+    ins = [fm.Input(name=f"in{k}", info=fm.Info(time=hlib.T0, grid=g_dst, units=cu)) for k in range(2)]
+    for i in ins:
+        out >> i
+    for i in ins:
+        i.ping()
+    for i in ins:
+        i.exchange_info()
+    shape = tuple(g_src.data_shape)
+    pub = np.arange(int(np.prod(shape)), dtype=float).reshape(shape) + 1.0
+    keep = pub.copy()
+    out.push_data(pub, hlib.T0)
+    c0 = float(fm.UNITS.Quantity(0.0, pu).to(cu).magnitude)
+    c1 = float(fm.UNITS.Quantity(1.0, pu).to(cu).magnitude)
+    first = None
+    order = [ctx.choice(f"who{k}", 2) for k in range(3)]
+    for k, who in enumerate(order):
+        d = ins[who].pull_data(hlib.T0)
+        m = np.asarray(d.magnitude, dtype=float)
+        if first is None:
+            first = m.copy()
+        ctx.check(bool(np.allclose(m, first)), "repeated-delivery-differs", {"sig": f"{src_kind}:{pu}->{cu}:pull{k}"})
+        ctx.check(bool(np.allclose(np.sort(m.ravel()), np.sort((keep * (c1 - c0) + c0).ravel()))),
+                  "delivery-not-the-converted-publication", {"sig": f"{src_kind}:{pu}->{cu}:pull{k}"})
+    ctx.check(bool(np.array_equal(pub, keep)), "published-array-modified", {"sig": f"{src_kind}:{pu}->{cu}"})
+    stored = np.asarray(out.data[-1][1].magnitude, dtype=float)
+    ctx.check(bool(np.allclose(stored.reshape(-1), keep.reshape(-1))), "retained-publication-modified",
+              {"sig": f"{src_kind}:{pu}->{cu}"})
+    ctx.cover("done")
+
+
 EXPLANATION = (
     "Bounded symbolic execution (own proxy engine symx + z3) of the real Output.push_data / "
     "Output.get_data / Output._interpolate / Input.pull_data code: publication gaps and request times "
@@ -197,6 +239,9 @@ def families(tier):
     fams.append(dict(name="sharing", ref="vf.props.c08:h_sharing", params={"pushes": 3 if q else 4},
                      bounds="every sequence of 3-4 publications drawn from three buffers (or reversed views of them), with or "
                             "without the consumer catching up in between", must_cover=["accepted", "refused"]))
+    fams.append(dict(name="repeat", ref="vf.props.c08:h_repeat", params={},
+                     bounds="float payload; source grid ESRI / reversed / plain x units (factor, none, offset) x every order of "
+                            "three pulls by two consumers of the same publication", must_cover=["done"]))
     fams.append(dict(name="payload", ref="vf.props.c08:h_payload", params={},
                      bounds="6 grid kinds x 5 unit set-ups x 6 payload forms, symbolic values",
                      must_cover=["delivered", "sharing-refused"]))
